@@ -128,6 +128,8 @@ register(NativeGroup('plumb.forms', dict(quick=[('forms', 3), ('forms_wide', 5),
                      _BN % (3, 5) + '; additionally N = 5, 6 (quick) / 6, 7 (thorough) trains with five selections each (whole list, reversed, rotated, all but one, a triple)', _WR))
 register(NativeGroup('plumb.degenerate', dict(quick=[('degenerate', 2), ('degenerate', 3)], thorough=[('degenerate', 2), ('degenerate', 3), ('degenerate', 4)]),
                      _BN % (3, 4) + '; every pattern of empty / non-empty trains', _WR))
+register(NativeGroup('plumb.repeated', dict(quick=[('repeated', 2), ('repeated', 3)], thorough=[('repeated', 2), ('repeated', 3), ('repeated', 4)]),
+                     _BN % (3, 4) + '; lists in which a spike train occurs more than once (identical spike times), also next to trains without spikes', _WR))
 register(NativeGroup('plumb.reconcile', dict(quick=[('reconcile', 2), ('reconcile', 3)], thorough=[('reconcile', 2), ('reconcile', 3), ('reconcile', 4)]), _BN % (3, 4), _WR))
 register(NativeGroup('plumb.auto', dict(quick=[('auto', 2), ('auto', 3)], thorough=[('auto', 2), ('auto', 3), ('auto', 4)]), _BN % (3, 4), _WR))
 register(NativeGroup('plumb.profile_avg', dict(quick=[('profile_avg', 2), ('profile_avg', 3)], thorough=[('profile_avg', 2), ('profile_avg', 3), ('profile_avg', 4)]),
@@ -205,3 +207,12 @@ kernel('addpwl_pyx.P', AddPwlP(ADD, 'add_piece_wise_lin_cython'), 'P', standin='
 kernel('adddisc_py.P', AddDiscreteP(), 'P', standin='adddisc_py.B', finder=sizes(0, 3), finder_contract=AddDiscrete(), timeout_ms=60000)
 kernel('adddisc_pyx.P', AddDiscreteP(ADD, 'add_discrete_function_cython'), 'P', standin='adddisc_pyx.B', finder=sizes(0, 3),
        finder_contract=AddDiscrete(ADD, 'add_discrete_function_cython'), timeout_ms=60000)
+from ..contracts.misc import Poisson  # noqa
+_PQ = [(f, n, k) for f in ('pair', 'scalar') for n in (1, 2, 3) for k in (0, 1, 2)]
+kernel('poisson.B', Poisson(), 'B', sizes_quick=_PQ, sizes_thorough=_PQ + [(f, n, 3) for f in ('pair', 'scalar') for n in (1, 2, 3, 4)],
+       bound_text='N = max(1,int(1.2*rate*T)) <= 3 (quick) / 4 (thorough) initial draws, refill loop <= 2 / 3 iterations; every outcome of the draws (reals >= 0), both interval forms')
+for _k in ('pwc', 'pwl', 'disc'):
+    kernel('%s_hist_query.B' % _k, F.History('%s_query_add_query' % _k, _k), 'B', sizes_quick=[(1, 1), (1, 2), (2, 1), (2, 2)], sizes_thorough=[(1, 1), (1, 2), (2, 1), (2, 2), (3, 2), (2, 3)],
+           bound_text='history integral/avrg(a,b) ; add ; mul_scalar ; integral/avrg(a,b) vs a fresh object with the same content; <= 2 pieces / events per operand (quick) / 3 (thorough), symbolic interval')
+kernel('thresh_trains.B', MI.DefaultThreshTrains(), 'B', sizes_quick=[(), (0,), (0, 1), (1, 0), (1, 2), (2, 0, 1)], sizes_thorough=[(), (0,), (0, 1), (1, 0), (1, 2), (2, 0, 1), (3, 2), (0, 0, 2)],
+       bound_text='<= 3 trains with <= 2 spikes (quick) / 3 (thorough), trains without spikes included')
